@@ -61,3 +61,45 @@ def dataclass_ctor(repo, modname, dotted, trusted_note=None):
             st.write_field(o, f, v)
         return o
     return Pure(fn, name=f'dataclass {dotted}')
+
+
+class EscapeHooks:
+    """Structural exception-escape analysis: every call of unknown code may raise; calls are classified by name.
+
+    ghost 'calls' = tuple of callee names in call order (python-level; functions analysed have no loops around
+    the tracked calls, otherwise the check must use a LoopSpec)."""
+
+    def __init__(self, io_names=(), pure_names=(), no_raise=(), tracked=(), havoc_heap=True):
+        self.io_names = set(io_names)      # socket / stream I/O: exceptions from these are connection errors
+        self.no_raise = set(no_raise)      # callees with a proved / trusted `raises = {}` contract
+        self.tracked_names = set(tracked) | self.io_names
+        self.havoc = havoc_heap
+
+    def _outcomes(self, ex, st, name, node):
+        short = name.split('.')[-1].split(':')[-1]
+        st.ghost['calls'] = st.ghost.get('calls', ()) + (short,)
+        if self.havoc:
+            st.havoc_heap()
+        outs = []
+        if short not in self.no_raise:
+            origin = ('io:' if short in self.io_names else 'call:') + short + f' line {getattr(node, "lineno", "?")}'
+            e = st.fork()
+            e.ghost['calls'] = e.ghost['calls'][:-1] + (short + '!',)   # '!' = this call raised
+            outs.append((e, Raise(ex.mk_exc('*', origin))))
+        outs.append((st, vany(fresh(Val, 'ret_' + short))))
+        return outs
+
+    def on_call(self, ex, st, fv, keys, args, kwargs, node):
+        if fv.t in ('builtin', 'lambda'):
+            return None
+        if fv.t == 'method' and fv.recv.kind in ('str', 'bytes', 'tuple'):
+            return None
+        if fv.t == 'method' and fv.recv.kind == 'ref' and fv.recv.cls in ('list', 'dict', 'set', 'tuple'):
+            return None
+        if fv.t == 'repo' and fv.qual in ex.ctx.inline:
+            return None
+        name = keys[0] if keys else getattr(fv, 'name', 'call')
+        return self._outcomes(ex, st, name, node)
+
+    def on_call_value(self, ex, st, f, args, kwargs, node):
+        return self._outcomes(ex, st, f.path or 'value', node)
